@@ -49,7 +49,16 @@ class Prop(c01.Prop):
             raise
         except (Exception, SystemExit) as e:
             new = None     # completion is C01's business; C05 only watches the receiver
-        after = self.deep(state)
+        try:
+            after = self.deep(state)
+        except core.Timeout:
+            raise
+        except Exception as e:
+            # the receiver can no longer be read at all (e.g. its file handle was closed under it)
+            vs.append(viol('receiver-unusable', sig, 'after the call the receiver cannot be read: %s: %r'
+                           % (type(e).__name__, e), **scope))
+            return {'op': op, 'hash': None, 'viol': vs, 'outcome': 'viol', 'trans': ntrans, 'nt': None,
+                    'rebuild': True}
         rebuild = False
         if after != before:
             vs.append(viol('receiver-modified', sig,
@@ -70,7 +79,15 @@ class Prop(c01.Prop):
             except Exception:
                 nw = 0
             ntrans += 1
-            after2 = self.deep(state)
+            try:
+                after2 = self.deep(state)
+            except core.Timeout:
+                raise
+            except Exception as e:
+                vs.append(viol('receiver-unusable', sig, 'after writing into the result the receiver cannot be '
+                               'read: %s: %r' % (type(e).__name__, e), **scope))
+                return {'op': op, 'hash': None, 'viol': vs, 'outcome': 'viol', 'trans': ntrans, 'nt': None,
+                        'rebuild': True}
             if after2 != before:
                 shared = []
                 for k in list(new.variables.keys()):
